@@ -70,8 +70,13 @@ class C15(Prop):
             "processors per connector and per pipeline, conditions, workers, settings, DLQ, reorderings, type and plugin "
             "changes, added/removed entities; one injected store-write failure or one invalid config per chain); "
             "thorough adds the exhaustive 2-connector x <=3-processor x one-change grammar with every failing "
-            "store-write index, through Import and through ApplyPlan's transaction. distinct = distinct input JSON; "
-            "non-trivial = some step changes an existing pipeline (its plan holds an update or a delete)")
+            "store-write index, through Import and through ApplyPlan's transaction. Directory family: 2..4 rounds of "
+            "Service.Init over a directory of 2..4 pipeline config files (YAML written by the harness, parsed by the real "
+            "parser) that stay, change, break (refused by the services half way, refused by validation, or a store write of "
+            "that pipeline's import fails), vanish, come back, are duplicated (one id per directory) or collide with an "
+            "API-provisioned pipeline; Init is run a second time after every error-free round. distinct = distinct input JSON; "
+            "non-trivial = some step changes an existing pipeline (its plan holds an update or a delete), or some Init after "
+            "the first writes to the store")
     trusted_base = [
         "Coq 8.16.1 kernel + vm_compute (no native_compute)",
         "Go harness harness/cmd/c15 + harness/lib/provx (recording fault-injecting DB wrapper, fake processor registry, "
@@ -84,7 +89,10 @@ class C15(Prop):
     assumptions = [
         "configs are config.Enrich-ed (processor ids are prefixed by their parent's id, ids contain no ':' of their own) "
         "and empty lists are nil, as the YAML parser and the API produce them",
-        "one pipeline per service instance (pipeline names are unique)",
+        "pipeline names are unique across pipelines; pipelines are stopped when Init runs (as its doc comment demands)",
+        "directory family: at most one duplicated pipeline id per directory (with two, Init's findDuplicateIDs/deleteIndexes "
+        "applies stale indexes in map order: nondeterministic, reported as a finding), config files are well-formed YAML, "
+        "no store failure while a vanished pipeline is deleted",
         "at most one failure per import (one store write fails once, or the config is invalid); rollback writes succeed",
         "database.DB: a Set either happens or returns an error; a discarded transaction leaves no write",
     ]
@@ -141,7 +149,11 @@ class C15(Prop):
     # ---- classification --------------------------------------------------------------------
     def nontrivial(self, case):
         steps = case.get("observed", {}).get("steps") or []
-        return any(any(ch["kind"] != 0 for ch in (s.get("plan") or [])) for s in steps)
+        if any(any(ch["kind"] != 0 for ch in (s.get("plan") or [])) for s in steps):
+            return True
+        # directory family: some Init after the first one wrote to the store (changed, rolled back or deleted something)
+        rounds = case.get("observed", {}).get("rounds") or []
+        return any(any(p.get("trace") for p in r.get("pls") or []) for r in rounds[1:])
 
     def finding_key(self, case, code):
         if code & 1:
@@ -156,7 +168,17 @@ class C15(Prop):
 
     def describe(self, case, code):
         what = []
-        for s, o in zip(case["input"].get("steps", []), case.get("observed", {}).get("steps", [])):
+        if case["input"].get("rounds"):
+            for r, o in zip(case["input"]["rounds"], case.get("observed", {}).get("rounds") or []):
+                ents = ["pl%d%s%s" % (d.get("id", 0), "(bad)" if d.get("bad") else "",
+                                      "" if d.get("fault", -1) < 0 else "(fault@%d)" % d["fault"]) for d in r.get("dir") or []]
+                after = ["pl%d=%s" % (k + 1, p.get("export", {}).get("kind")) for k, p in enumerate(o.get("pls") or [])]
+                what.append("Init{%s} err=%s -> %s" % (" ".join(ents), o.get("err"), " ".join(after)))
+            return ("directory rounds [%s] violate C15 (a pipeline still in the directory whose import fails / is duplicated / "
+                    "belongs to the API is fully retained with its positions; exactly the config-provisioned pipelines that "
+                    "vanished are deleted; restart with the same directory does nothing); repairs that would make the model "
+                    "satisfy the monitor on this input: mask %d" % ("; ".join(what), code >> 2))
+        for s, o in zip(case["input"].get("steps") or [], case.get("observed", {}).get("steps") or []):
             what.append("%s%s" % (o.get("outcome"), "" if s.get("fault", -1) < 0 else "(fault@%d)" % s["fault"]))
         return ("import chain [%s] violates C15 (converges / idempotent / fails atomically / position kept); "
                 "repairs that would make the model satisfy the monitor on this input: mask %d (1=S9 copy ids, "
@@ -164,11 +186,28 @@ class C15(Prop):
 
     def distribution(self, cases):
         d = {"steps": 0, "txn": 0, "store_faults": 0, "failed_imports": 0, "ok_imports": 0, "with_conditions": 0,
-             "conn_with_3plus_procs": 0, "type_changes_or_deletes": 0}
+             "conn_with_3plus_procs": 0, "type_changes_or_deletes": 0,
+             "dir_cases": 0, "dir_inits": 0, "dir_inits_with_error": 0, "dir_entries": 0, "dir_bad_or_faulted_entries": 0,
+             "dir_duplicated_ids": 0, "dir_api_pipelines": 0, "dir_pipelines_deleted": 0}
         for c in cases:
             i, o = c["input"], c.get("observed", {})
             d["txn"] += bool(i.get("txn"))
-            for s in i.get("steps", []):
+            if i.get("rounds"):
+                d["dir_cases"] += 1
+                d["dir_api_pipelines"] += len(i.get("api") or [])
+                prev = o.get("before") or []
+                for r, ro in zip(i["rounds"], o.get("rounds") or []):
+                    d["dir_inits"] += 1
+                    d["dir_inits_with_error"] += bool(ro.get("err"))
+                    ids = [e.get("id") for e in r.get("dir") or []]
+                    d["dir_entries"] += len(ids)
+                    d["dir_duplicated_ids"] += len({x for x in ids if ids.count(x) > 1})
+                    d["dir_bad_or_faulted_entries"] += sum(1 for e in r.get("dir") or [] if e.get("bad") or e.get("fault", -1) >= 0)
+                    pls = ro.get("pls") or []
+                    d["dir_pipelines_deleted"] += sum(1 for a, b in zip(prev, pls)
+                                                      if a.get("export", {}).get("kind") == "ok" and b.get("export", {}).get("kind") == "none")
+                    prev = pls
+            for s in i.get("steps") or []:
                 d["steps"] += 1
                 d["store_faults"] += s.get("fault", -1) >= 0
                 cfg = s["cfg"]
@@ -177,7 +216,7 @@ class C15(Prop):
                     ps += k.get("procs") or []
                     d["conn_with_3plus_procs"] += len(k.get("procs") or []) >= 3
                 d["with_conditions"] += any(p.get("cond") for p in ps)
-            for s in o.get("steps", []):
+            for s in o.get("steps") or []:
                 d["failed_imports"] += s.get("outcome") == "failed"
                 d["ok_imports"] += s.get("outcome") == "ok"
                 d["type_changes_or_deletes"] += any(ch["kind"] == 2 and ch["key"].startswith("(KC")
